@@ -414,6 +414,98 @@ def run(ctx):
             reach = pr.reachable_blocks(cut_blocks=q.blocks_of(pr, rdy), cut_edges=g_nz)
             ok6 = pr.exit not in reach
     ctx.check(ok6, R6, 'prepare:query-string-parsed-whole:failure-drops-it:cookies:ready-iff-no-body', 'prepare() does not parse the whole query string into the GET form (dropping a failed parse), parse the cookies, take the content length from the connection and mark a body-less request ready', pr.where)
+    # ---------------- R7 saving an upload keeps every byte
+    R7 = ctx.rule('C12.R7', 'http::file::save_to stores the whole upload: the reading side is cleared and rewound to offset 0 and the buffer synchronised before anything is copied or moved; an in-memory upload is copied '
+                            'out, an on-disk one is renamed and copied only if the rename failed; save_by_copy opens the target in binary mode, refuses an unopened target, copies the whole stream and flushes')
+    FI = 'cppcms::http::file::'
+    st_ = P.fn(FI + 'save_to')
+    sbc = P.fn(FI + 'save_by_copy')
+    cps = P.fn(FI + 'copy_stream')
+    fnp = q.param_by_index(st_, 0)
+    on_in = lambda f, i: f.obj(i) is not None and any(model.strip_targs(x).endswith('_data::in') for x in f.subtree_refs(f.obj(i)))
+    on_fb = lambda f, i: f.obj(i) is not None and any(model.strip_targs(x).endswith('_data::fb') for x in f.subtree_refs(f.obj(i)))
+    rew = [i for i in st_.calls() if q.short_of(st_.callee(i) or '') == 'seekg' and on_in(st_, i) and any(st_.const_value(j) == 0 for j in st_.walk(st_.args(i)[0]))]
+    clr = [i for i in st_.calls() if q.short_of(st_.callee(i) or '') == 'clear' and on_in(st_, i)]
+    syn = [i for i in st_.calls() if q.short_of(st_.callee(i) or '') in ('pubsync', 'sync') and on_fb(st_, i)]
+    movers = [i for i in st_.calls() if st_.bcallee(i) == FI + 'save_by_copy' or q.short_of(st_.callee(i) or '') == 'rename']
+    ok7 = len(rew) == 1 and len(clr) >= 1 and len(syn) == 1 and bool(movers) and q.before(st_, clr[0], rew[0]) and all(q.before(st_, rew[0], m_) and q.before(st_, syn[0], m_) for m_ in movers)
+    ctx.check(ok7, R7, 'save_to:rewound-and-synchronised-before-the-bytes-move', 'the upload is copied / moved without clear() + seekg(0) on the reading side and a sync of the buffer first (a partly read or unflushed upload is saved short)', st_.where)
+    g_mem = q.call_gate(st_, lambda i: q.short_of(st_.callee(i) or '') == 'in_memory' and on_fb(st_, i), True)
+    g_disk = q.call_gate(st_, lambda i: q.short_of(st_.callee(i) or '') == 'in_memory' and on_fb(st_, i), False)
+    copies = [i for i in st_.calls() if st_.bcallee(i) == FI + 'save_by_copy']
+    rn = [i for i in st_.calls() if q.short_of(st_.callee(i) or '') == 'rename']
+    mem_copy = [i for i in copies if bool(g_mem) and st_.only_through(i, g_mem)]
+    ok7 = bool(g_mem) and len(mem_copy) == 1 and fnp in st_.subtree_refs(st_.args(mem_copy[0])[0]) and any(model.strip_targs(x).endswith('_data::in') for x in st_.subtree_refs(st_.args(mem_copy[0])[1]))
+    if ok7:
+        for (b_, s_, lab_, tag_) in g_mem:
+            rb = st_.reachable_blocks(start=s_, cut_blocks=[st_.point_of(mem_copy[0])[0]])
+            if st_.exit in rb:
+                ok7 = False
+    ctx.check(ok7, R7, 'save_to:in-memory-upload-copied-out', 'an upload held in memory is not written to the named file on every path', st_.where)
+    ok7 = len(rn) == 1 and bool(g_disk) and st_.only_through(rn[0], g_disk)
+    why7 = 'an upload on disk is not moved to the named file'
+    if ok7:
+        a_ = st_.args(rn[0])
+        g_rfail = st_.gate_edges(lambda atom, pol: st_.N(atom)['k'] == 'BinaryOperator' and st_.N(atom).get('op') in ('!=', '==') and rn[0] in set(st_.walk(atom)) and st_.const_value(st_.N(atom)['ch'][1]) == 0 and
+                                 pol is (st_.N(atom)['op'] == '!='))
+        fb_copy = [i for i in copies if i not in mem_copy]
+        ok7 = fnp in st_.subtree_refs(a_[1]) and any(q.short_of(st_.callee(j) or '') == 'name' for j in st_.calls(a_[0])) and bool(g_rfail) and len(fb_copy) == 1 and st_.only_through(fb_copy[0], g_rfail) and \
+            fnp in st_.subtree_refs(st_.args(fb_copy[0])[0])
+        why7 = 'the temporary file is not renamed to the target, or a failed rename is not followed by a copy into the target'
+        if ok7:
+            for (b_, s_, lab_, tag_) in g_rfail:
+                rb = st_.reachable_blocks(start=s_, cut_blocks=[st_.point_of(fb_copy[0])[0]])
+                if st_.exit in rb:
+                    ok7, why7 = False, 'a failed rename can leave save_to without the copy'
+    ctx.check(ok7, R7, 'save_to:on-disk-upload-renamed-or-copied', why7, st_.where)
+    op_ = [i for i in sbc.calls() if sbc.N(i)['k'] == 'CXXConstructExpr' and 'ofstream' in (sbc.callee(i) or '')]
+    cp_ = [i for i in sbc.calls() if sbc.bcallee(i) == FI + 'copy_stream']
+    inl_ = [i for i in sbc.calls() if (sbc.callee(i) or '').endswith('operator<<') and any(q.short_of(sbc.callee(j) or '') == 'rdbuf' and sbc.obj(j) is not None and sbc.ref_of(sbc.obj(j)) == q.param_by_index(sbc, 1) for j in sbc.calls(i))]
+    direct_copy = not cp_ and len(inl_) == 1
+    if direct_copy:
+        cp_ = inl_
+    thr = [i for i in sbc.all_nodes() if sbc.N(i)['k'] == 'CXXThrowExpr']
+    ok7 = len(op_) == 1 and len(cp_) == 1 and len(thr) >= 1
+    if ok7:
+        fv = [d['ref'] for i in sbc.all_nodes() if sbc.N(i)['k'] == 'DeclStmt' for d in sbc.N(i)['decls'] if d.get('init') is not None and sbc.strip(d['init']) == op_[0]]
+        g_bad = sbc.gate_edges(lambda atom, pol: bool(fv) and (sbc.ref_of(atom) == fv[0] or (sbc.N(atom)['k'] in model.CALL_KINDS and fv[0] in sbc.subtree_refs(atom) and
+                                                                                         ('operator bool' in (sbc.callee(atom) or '') or 'operator!' in (sbc.callee(atom) or '') or q.short_of(sbc.callee(atom) or '') in ('fail', 'is_open', 'good')))) and pol is not None)
+        a_ = sbc.args(cp_[0]) if not direct_copy else [[x for x in sbc.N(cp_[0])['ch'][1:] if q.param_by_index(sbc, 1) in sbc.subtree_refs(x)][0], [x for x in sbc.N(cp_[0])['ch'][1:] if q.param_by_index(sbc, 1) not in sbc.subtree_refs(x)][0]]
+        flags = sbc.N(op_[0])['ch'][1] if len(sbc.N(op_[0])['ch']) > 1 else None
+        ok7 = bool(fv) and q.param_by_index(sbc, 0) in sbc.subtree_refs(sbc.N(op_[0])['ch'][0]) and flags is not None and any(x.endswith('ios_base::binary') or x.endswith('::binary') for x in sbc.subtree_refs(flags)) and \
+            q.param_by_index(sbc, 1) in sbc.subtree_refs(a_[0]) and fv[0] in sbc.subtree_refs(a_[1]) and q.before(sbc, op_[0], cp_[0]) and bool(g_bad) and \
+            any(q.short_of(sbc.callee(i) or '') in ('flush', 'close') or 'flush' in ''.join(sbc.subtree_refs(i)) for i in sbc.calls() if q.reaches(sbc, cp_[0], i))
+        # the copy runs only with an opened target: the throw is reached through the "not open" edge and the copy is not
+        nthr = q.truth_gate(sbc, lambda e: sbc.ref_of(e) == fv[0] or (sbc.N(e)['k'] in model.CALL_KINDS and fv and fv[0] in sbc.subtree_refs(e) and 'operator bool' in (sbc.callee(e) or '')), False) if ok7 else []
+        ok7 = ok7 and (not nthr or all(sbc.only_through(t_, nthr) for t_ in thr))
+    ctx.check(ok7, R7, 'save_by_copy:binary-target-whole-stream-flushed', 'the target is not opened in binary mode from the given name, an unopened target is not refused, or the stream is not copied whole into it and flushed', sbc.where)
+    rd = [i for i in cps.calls() if q.short_of(cps.callee(i) or '') == 'rdbuf' and cps.obj(i) is not None and cps.ref_of(cps.obj(i)) == q.param_by_index(cps, 0)]
+    ins = [i for i in cps.calls() if (cps.callee(i) or '').endswith('operator<<') and q.param_by_index(cps, 1) in cps.subtree_refs(i) and rd and cps.contains(i, rd[0])]
+    ctx.check((len(rd) == 1 and len(ins) == 1 and q.always_before_exit(cps, ins)) or (direct_copy and not [i for i in P.fns.values() if any(g_.bcallee(c_) == FI + 'copy_stream' for g_ in [i] for c_ in g_.calls())]), R7, 'copy_stream:whole-source-buffer-into-the-target', 'copy_stream does not stream the source\'s buffer into the target', cps.where)
+    ctx.floor(R7, 5)
+    # ---------------- R8 the upload stream buffer hands characters out as int_type without sign extension
+    R8 = ctx.rule('C12.R8', 'http::impl::file_buffer (the stream buffer uploads are read back through): underflow / uflow / pbackfail return a character only through traits_type::to_int_type or an unsigned char '
+                            'conversion - a plain char converted to int makes byte 0xFF equal to EOF and cuts the content short at a refill boundary')
+    n8 = 0
+    for f in sorted([g for g in P.fns.values() if g.short in ('underflow', 'uflow', 'pbackfail') and 'file_buffer' in (g.record or '') and g.body is not None], key=lambda g: g.id):
+        bad = []
+        for rt in f.returns():
+            v = f.ret_value(rt)
+            if v is None:
+                continue
+            for j in f.walk(v):
+                n_ = f.N(j)
+                if n_['k'] == 'ImplicitCastExpr' and n_.get('cast') == 'IntegralCast' and n_.get('ch'):
+                    src_t = (f.types[f.N(n_['ch'][0])['t']] if f.N(n_['ch'][0]).get('t') is not None else '') or ''
+                    if src_t.replace('const ', '').strip() in ('char', 'signed char'):
+                        bad.append(rt)
+        n8 += 1
+        ctx.check(not bad, R8, 'file_buffer::%s:characters-returned-through-to_int_type' % f.short, 'a char is returned as int without to_int_type / unsigned char: 0xFF reads as end of file', f.loc(bad[0]) if bad else f.where)
+    for f in sorted([g for g in P.fns.values() if g.short == 'overflow' and 'file_buffer' in (g.record or '') and g.body is not None], key=lambda g: g.id):
+        nb_ = q.narrowed_char_eof_tests(f)
+        ctx.check(not nb_, R8, 'file_buffer::overflow:EOF-tested-on-the-int', 'the overflowing character is compared with EOF after narrowing to char: byte 0xFF of an upload is dropped', f.loc(nb_[0]) if nb_ else f.where)
+    ctx.require(n8 >= 2 or ctx.violations, 'C12.R8: file_buffer::underflow / pbackfail not found')
+    ctx.floor(R8, 2)
     ctx.floor(R6, 2)
     ctx.floor(R1, 6)
     ctx.floor(R2, 12)
